@@ -12,6 +12,9 @@ package suites
 // argument: cell n means base + n T + T/4.  With this, "ts.Before(now-expiry)"
 // is decided by cell numbers alone: ts in cell a is expired at cell b iff
 // b - a >= K + 1.  The model runs in half ticks: time 2n, expiry 2K+1.
+// Operation kind 3 passes ExpireLogs the instant (stored stamp of the Printf of
+// cell n, as returned by an earlier dump) + expiry, i.e. the exact boundary
+// where Before and !After differ: model time 2n + 2K + 1.
 //
 // The file also holds the grid helpers shared with the limiter suite (tg*).
 
@@ -130,8 +133,8 @@ type elCfg struct {
 }
 
 type elOp struct {
-	Kind int    `json:"k"`    // 0 Printf, 1 ExpireLogs, 2 DumpLogEntries
-	Cell int    `json:"cell"` // grid cell of the call (ExpireLogs: of the instant passed)
+	Kind int    `json:"k"`    // 0 Printf, 1 ExpireLogs, 2 DumpLogEntries, 3 ExpireLogs(stamp + expiry) exactly
+	Cell int    `json:"cell"` // grid cell of the call (1: of the instant passed; 3: of the Printf whose stored stamp is used)
 	Line string `json:"line,omitempty"`
 	// hex of the logged bytes
 }
@@ -151,9 +154,10 @@ type elDump struct {
 }
 
 type elEv struct {
-	T0, T1 time.Duration // relative to the grid base (timed calls)
-	Panic  string
-	Dump   *elDump
+	T0, T1  time.Duration // relative to the grid base (timed calls)
+	Panic   string
+	Dump    *elDump
+	Skipped bool // kind 3 without a known stamp: not performed
 }
 
 func elBytes(h string) []byte { b, _ := hex.DecodeString(h); return b }
@@ -184,9 +188,16 @@ func elRun(h elHist, tick time.Duration) (evs []elEv, ok bool) {
 	g := tgGrid{base: time.Now().Add(tick / 2), tick: tick}
 	expiry := time.Duration(h.Cfg.K)*tick + tick/2
 	l := glow.NewEventLogger(expiry, h.Cfg.Max, h.Cfg.MaxLine)
+	known := map[int]time.Time{} // cell -> a stored stamp of that cell, as returned by a dump
 	for _, o := range h.Ops {
 		var ev elEv
 		switch o.Kind {
+		case 3:
+			if ts, ok := known[o.Cell]; ok {
+				ev.Panic = elRecover(func() { l.ExpireLogs(ts.Add(expiry)) })
+			} else {
+				ev.Skipped = true
+			}
 		case 0:
 			s := string(elBytes(o.Line))
 			t0, in := g.enter(o.Cell)
@@ -229,6 +240,7 @@ func elRun(h elHist, tick time.Duration) (evs []elEv, ok bool) {
 						if !first {
 							d.OffOK = false
 						}
+						known[c] = t
 						cells = append(cells, c)
 						raws = append(raws, t.Sub(g.base))
 					}
@@ -282,7 +294,7 @@ func elOracle(h elHist, evs []elEv) []elFail {
 		loggable bool
 	}
 	var printfs []pf
-	var cuts []int // cells of every expiry that has happened so far (Printf, ExpireLogs, Dump), in op order
+	var cuts []int // instant (half ticks) of every expiry that has happened so far (Printf, ExpireLogs, Dump), in op order
 	var cutAt []int
 	// cutAt[i] = number of printfs before cut i
 	printed := map[string]bool{}
@@ -290,11 +302,18 @@ func elOracle(h elHist, evs []elEv) []elFail {
 		o := h.Ops[i]
 		if ev.Panic != "" {
 			if c.MaxLine >= 0 {
-				fail("panic", "op %d (%s) panicked: %s", i, []string{"Printf", "ExpireLogs", "DumpLogEntries"}[o.Kind], ev.Panic)
+				fail("panic", "op %d (%s) panicked: %s", i, []string{"Printf", "ExpireLogs", "DumpLogEntries", "ExpireLogs"}[o.Kind], ev.Panic)
 			}
 			break
 		}
-		cuts = append(cuts, o.Cell)
+		if ev.Skipped {
+			continue
+		}
+		if o.Kind == 3 {
+			cuts = append(cuts, 2*o.Cell+2*c.K+1)
+		} else {
+			cuts = append(cuts, 2*o.Cell)
+		}
 		cutAt = append(cutAt, len(printfs))
 		if o.Kind == 0 {
 			tl := elTrunc(c, elBytes(o.Line))
@@ -310,7 +329,7 @@ func elOracle(h elHist, evs []elEv) []elFail {
 		// alive(k): the stamp of printf k has not been cut by any expiry since (cells alone decide, see header)
 		alive := func(k int) bool {
 			for j, cc := range cuts {
-				if cutAt[j] > k && cc-printfs[k].cell >= c.K+1 {
+				if cutAt[j] > k && 2*printfs[k].cell < cc-(2*c.K+1) {
 					return false
 				}
 			}
@@ -485,6 +504,7 @@ func elRandomHistory(rng *core.RNG, c elCfg, nPrintf int, class string) elHist {
 	var pool [][]byte
 	cur := 0
 	minP, maxP := 1<<30, -1
+	var pcells, dumped []int // cells of the Printf calls so far / of those a dump may have shown
 	for done := 0; done < nPrintf; {
 		r := rng.Intn(100)
 		switch {
@@ -513,8 +533,11 @@ func elRandomHistory(rng *core.RNG, c elCfg, nPrintf int, class string) elHist {
 				minP = cur
 			}
 			maxP = cur
+			pcells = append(pcells, cur)
 			done++
-		case r < 84:
+		case r < 74 && len(dumped) > 0:
+			h.Ops = append(h.Ops, elOp{Kind: 3, Cell: dumped[len(dumped)-1-rng.Intn(min(len(dumped), 4))]})
+		case r < 86:
 			cut := cur
 			switch rng.Intn(6) {
 			case 0: // before every stored stamp
@@ -537,6 +560,7 @@ func elRandomHistory(rng *core.RNG, c elCfg, nPrintf int, class string) elHist {
 		default:
 			cur += elGap(rng, c)
 			h.Ops = append(h.Ops, elOp{Kind: 2, Cell: cur})
+			dumped = append([]int{}, pcells...)
 		}
 	}
 	cur += 1
@@ -588,6 +612,9 @@ func elScenarios() []elHist {
 	add("scenario.expire-cut-between", elCfg{2, 40, 8}, P(3, A4), P(4, B4), E(6), D(5))
 	add("scenario.expire-cut-after", elCfg{2, 40, 8}, P(3, A4), P(4, B4), E(7), D(5), P(6, C4), D(7))
 	add("scenario.expire-then-evict", elCfg{2, 24, 4}, P(1, A4), P(2, B4), P(3, C4), P(5, D4), D(6), P(7, A4), P(8, B4), P(9, C4), D(10))
+	X := func(cell int) elOp { return elOp{Kind: 3, Cell: cell} }
+	add("scenario.expire-exact-boundary", elCfg{20, 40, 8}, P(1, A4), P(2, B4), D(3), X(2), D(4))
+	add("scenario.expire-exact-boundary", elCfg{20, 40, 8}, P(1, A4), P(2, A4), P(3, B4), D(4), X(2), D(5), X(3), D(6), P(7, C4), X(1), D(8))
 	add("scenario.negative-expiry", elCfg{-1, 40, 8}, P(1, A4), P(2, A4), P(3, B4), D(4))
 	add("scenario.negative-line-limit", elCfg{2, 40, -1}, P(1, A4))
 	add("scenario.empty", elCfg{2, 40, 8}, D(1), E(5), D(2))
@@ -688,6 +715,13 @@ func elItem(h elHist, evs []elEv) string {
 	var ops []string
 	for i, ev := range evs {
 		o := h.Ops[i]
+		if ev.Skipped {
+			continue
+		}
+		if o.Kind == 3 {
+			ops = append(ops, core.Tuple("1", core.Z(2*int64(o.Cell)+2*int64(h.Cfg.K)+1), elHx(""), map[bool]string{true: "ObsPanic", false: "ObsNone"}[ev.Panic != ""]))
+			continue
+		}
 		obs := "ObsNone"
 		if ev.Panic != "" {
 			obs = "ObsPanic"
@@ -714,7 +748,10 @@ func elDesc(h elHist, evs []elEv, tick time.Duration) map[string]interface{} {
 		if i >= len(evs) {
 			break
 		}
-		s := fmt.Sprintf("%s@%d", []string{"P", "E", "D"}[o.Kind], o.Cell)
+		s := fmt.Sprintf("%s@%d", []string{"P", "E", "D", "X"}[o.Kind], o.Cell)
+		if evs[i].Skipped {
+			s += " skipped"
+		}
 		if o.Kind == 0 {
 			s += ":" + o.Line
 		}
@@ -844,6 +881,10 @@ func eventlogSuite(seed uint64, tier, outDir string) (*core.Result, error) {
 				nontrivial = true
 			case op.Kind == 0:
 				res.Count("op.printf")
+			case ev.Skipped:
+				res.Count("op.expire-exact.skipped")
+			case op.Kind == 3:
+				res.Count("op.expire-exact")
 			case op.Kind == 1:
 				res.Count("op.expire")
 			case op.Kind == 2:
@@ -907,7 +948,7 @@ func eventlogSuite(seed uint64, tier, outDir string) (*core.Result, error) {
 			res.Required = append(res.Required, h.Class)
 		}
 	}
-	res.Required = append(res.Required, "production-shape", "op.printf", "op.expire", "op.dump")
+	res.Required = append(res.Required, "production-shape", "op.printf", "op.expire", "op.expire-exact", "op.dump")
 	res.Extra["tick_ms"] = float64(baseTick) / 1e6
 	res.Rule = "corpus, then hand-built scenarios (fill/expire/relog, evictions, duplicates, truncation, unstorable lines, expiry cuts before/between/after), the production shape, and seeded random histories of 10-60 Printf (lengths 0..2x line limit, repeated/fresh/colliding-after-truncation lines) mixed with ExpireLogs and DumpLogEntries over 16 configurations, all on a time grid (tick adaptive, histories whose calls leave their half cell are discarded and repeated); thorough adds every sequence of up to 4 operations over a 9-symbol alphabet; a history is non-trivial when some dump is non-empty or a call panics, distinct by its full observed trace"
 	return res, nil
